@@ -799,21 +799,16 @@ def check_reset(model, R, P):
         inner = v.args[0] if isinstance(v, ast.Call) and dotted(v.func) == 'Tensor' and v.args else v
         ok = ok and inner is calls[0] if ok else False
     R.ob(P + '.RESET', z.qualname, ' ; '.join(norm(n) for n in stmts)[:120], ok and not others, 'zero_ must install np.zeros_like(self.data) and nothing else', z.loc)
-    for q, coll in ((('synapgrad.nn.modules.Module.zero_grad'), 'self.parameters()'), (('synapgrad.optim.optimizers.Optimizer.zero_grad'), 'self.parameters')):
+    from .rules_modtree import zero_grad_outcome
+    for q in ('synapgrad.nn.modules.Module.zero_grad', 'synapgrad.optim.optimizers.Optimizer.zero_grad'):
         fn = model.func(q)
-        cfg = CFG(fn.node)
-        loops = [n for n in body_walk(fn.node) if isinstance(n, ast.For) and norm(n.iter) == coll]
-        ok = len(loops) == 1 and not cfg.conditions(loops[0]) and not cfg.in_loop(loops[0])
-        if ok:
-            lp = loops[0]
-            v = norm(lp.target)
-            calls = [s_ for s_ in ast.walk(lp) if isinstance(s_, ast.Expr) and isinstance(s_.value, ast.Call) and norm(s_.value) == '%s.zero_()' % v]
-            # everything else in the function is control flow only (if / continue / pass / docstring)
-            other = [s_ for s_ in ast.walk(fn.node) if isinstance(s_, ast.stmt) and s_ is not fn.node and s_ is not lp and s_ not in calls
-                     and not isinstance(s_, (ast.If, ast.Continue, ast.Pass)) and not (isinstance(s_, ast.Expr) and isinstance(s_.value, ast.Constant))]
-            ok = len(calls) == 1 and not other and {(t, p) for t, p, _ in facts_at(cfg, calls[0])} == {('%s.requires_grad' % v, True)}
-        R.ob(P + '.RESET', q, 'for p in %s: if p.requires_grad: p.zero_()' % coll, ok,
-             'zero_grad must reset exactly the owned parameters that require grad (a frozen parameter must not acquire a buffer)', fn.loc)
+        try:
+            ok, how = zero_grad_outcome(model, q)
+        except Incomplete as u:
+            R.incomplete_at(P + '.RESET', q, str(u))
+            continue
+        R.ob(P + '.RESET', q, 'evaluated on trainable and frozen parameters: %s' % how, ok,
+             'zero_grad must reset exactly the owned parameters that require grad, each once (a frozen parameter must not acquire a buffer) and write nothing else', fn.loc)
 
 
 # ------------------------------------------------------------------------------------------------ C17
